@@ -423,7 +423,7 @@ def first_difference(a, b):
 
 
 def run(ctx):
-    build_ok, obl, regen = core.std_setup(ctx)
+    build_ok, obl, regen = P17.setup_with_retry(ctx)
     quick = ctx.quick()
     rng = ctx.rng
     nprog = 60 if quick else 400
@@ -597,7 +597,7 @@ def run(ctx):
                 dist['saves_raised'] += o['obs'][0] == 'raised'
     ctx.log('slowest workers: %s' % sorted(TIMES, reverse=True)[:6])
     ctx.log('evaluating the projection comparison inside Coq (%d cases)' % len(terms))
-    bad, errors = core.coq_eval_cases(ctx, HEADER, CASE_TYPE, terms, 'C20.mismatches', chunk=60)
+    bad, errors = P17.eval_with_retry(ctx, HEADER, CASE_TYPE, terms, 'C20.mismatches', 60)
     mismatches = [{'case_index': i, 'input': case_inputs[i][0], 'footprint_measured': case_inputs[i][1],
                    'explained_by_known': False} for i in bad[:10]]
     # one failure per signature
